@@ -62,31 +62,32 @@ func c17unhex(s string) string {
 // ---- the generated definition as the Lean driver reports it ------------------------------------
 
 type c17level struct {
-	key, name, pattern      string
-	notContains             []string
-	previous, deesc, esc    string
-	auth                    bool
-	escPrompt               string
-	witness, authWitness    string
-	targetable              bool
+	key, name, pattern   string
+	notContains          []string
+	previous, deesc, esc string
+	auth                 bool
+	escPrompt            string
+	witness, authWitness string
+	targetable           bool
 }
 
 type c17step map[string]string // key -> canonical value (s<hex>, b0, …)
 
 type c17def struct {
-	file, variant  string
-	kind, err      string
-	canon          string // the canonical text after kind/err
-	dt, dd         string
-	fw             []string
-	levels         []*c17level
-	byKey          map[string]*c17level
-	noo, noc       []c17step
-	oo, oc         []c17step
-	class          map[string]int // level key -> prompt class index
-	classes        [][]string
-	checks         string
-	ambiguous      bool // some class has more than one level
+	file, variant string
+	kind, err     string
+	loads         bool
+	canon         string // the canonical text after kind/err
+	dt, dd        string
+	fw            []string
+	levels        []*c17level
+	byKey         map[string]*c17level
+	noo, noc      []c17step
+	oo, oc        []c17step
+	class         map[string]int // level key -> prompt class index
+	classes       [][]string
+	checks        string
+	ambiguous     bool // some class has more than one level
 }
 
 func c17parseSteps(s string) []c17step {
@@ -131,7 +132,7 @@ func c17parseDef(file, variant, defLine, witLine string) (*c17def, error) {
 			kv[f[:i]] = f[i+1:]
 		}
 	}
-	d.kind, d.err = kv["kind"], kv["err"]
+	d.kind, d.err, d.loads = kv["kind"], kv["err"], kv["loads"] == "1"
 	if i := strings.Index(defLine, " dt="); i >= 0 {
 		d.canon = defLine[i+1:]
 	}
@@ -466,9 +467,16 @@ func c17fields(c *ctx, d *c17def, verbose bool) {
 	}
 	p, err, pmsg := c17new(c17stem(d.file), d.variant, c17baseOpts(sim.NewPipe())...)
 	if err != nil || pmsg != "" || p == nil {
-		c.res.Fail("correspondence", caseLine, fmt.Sprintf("%s: embedded definition does not load: err=%v panic=%q (model: kind=%s err=%s)",
-			d.label(), err, pmsg, d.kind, d.err), "embedded-load-fail:"+d.label())
+		detail := fmt.Sprintf("%s: embedded definition does not load: err=%v panic=%q (model: kind=%s err=%s constructs=%v)",
+			d.label(), err, pmsg, d.kind, d.err, d.loads)
+		c.res.Fail("oracle", caseLine, detail, "embedded-definition-does-not-load:"+d.label())
+		if d.loads {
+			c.res.Fail("correspondence", caseLine, detail, "embedded-load-fail:"+d.label())
+		}
 		return
+	}
+	if !d.loads {
+		c.res.Fail("correspondence", caseLine, d.label()+": loads, but the model says the constructor cannot build it", "embedded-load-unexpected:"+d.label())
 	}
 	got := c17platformCanon(p)
 	if verbose {
@@ -780,15 +788,15 @@ func (d *c17def) pathLines(a, b, secret string) []string {
 }
 
 type c17sessOut struct {
-	stage                         string // how far it got
-	openErr, acqErr, closeErr     error
-	panicMsg                      string
-	hang                          bool
-	modeOpen, modeAcq, modeClose  string
-	lines                         []sim.LineEvent
-	nOpen, nAcq                   int // len(lines) after open / after acquire
-	closeCalls                    int
-	didAcquire                    bool
+	stage                        string // how far it got
+	openErr, acqErr, closeErr    error
+	panicMsg                     string
+	hang                         bool
+	modeOpen, modeAcq, modeClose string
+	lines                        []sim.LineEvent
+	nOpen, nAcq                  int // len(lines) after open / after acquire
+	closeCalls                   int
+	didAcquire                   bool
 }
 
 func c17runSession(d *c17def, cur, tgt string, auth bool, seg int) *c17sessOut {
